@@ -28,8 +28,8 @@ var (
 	issuerInitB                                        []byte
 	tokenUnits                                         = txkit.LKC(1000)
 	failingInit                                        = append([]byte{}, txkit.RevertRuntime...) // init code that REVERTs: a failing creation
-	numStates                                          = 2
-	stateNames                                         = []string{"genesis", "after-mixed-block"}
+	numStates                                          = 3
+	stateNames                                         = []string{"genesis", "after-mixed-block", "candidate-elected"}
 )
 
 func init() {
@@ -185,9 +185,27 @@ func commonLetters() []letter {
 	}
 }
 
+// candidateLetterNames: the (small) alphabet of the third prior state, whose point is the candidate list and the evidence
+// every block carries, not the transactions
+var candidateLetterNames = []string{"transfer(A->B,10)", "transfer(B->A,7)", "A->U(C->W1,W2)", "transfer(A->C,2)@state-nonce[duplicate nonce after another A tx]"}
+
 func lettersFor(st int) []letter {
 	A, B, C, D := txkit.A, txkit.B, txkit.C, txkit.D
 	ls := commonLetters()
+	if st == 2 {
+		var out []letter
+		for _, n := range candidateLetterNames {
+			for _, l := range ls {
+				if l.name == n {
+					out = append(out, l)
+				}
+			}
+		}
+		if len(out) != len(candidateLetterNames) {
+			panic("candidate-state letters not found")
+		}
+		return out
+	}
 	if st == 0 {
 		ls = append(ls,
 			plain("transfer(A->A,1)[self]", func(x *bctx) types.Tx { return txkit.Transfer(A, x.next(A), A.Addr, txkit.LKC(1)) }),
